@@ -194,6 +194,8 @@ enum Cause {
     Kill,
     Err,
     Panic,
+    /// the exiting actor's task is dropped before its k-th poll (task cancellation)
+    Abort(usize),
 }
 #[derive(Clone, Copy, Debug, PartialEq, Eq)]
 enum Race {
@@ -221,10 +223,11 @@ fn live_body(shape: Shape, at_root: bool, cause: Cause, race: Race, local_child:
                 let spawner = spawner.clone();
                 async move {
                     let a = args(id, Prog::default(), &log);
+                    // (named: the task-cut injection selects the actor task by name)
                     let r = match (sup, local) {
-                        (None, _) => Actor::spawn(None, Probe, a).await,
-                        (Some(s), false) => Actor::spawn_linked(None, Probe, a, s).await,
-                        (Some(s), true) => <Probe as ractor::thread_local::ThreadLocalActor>::spawn_linked(None, a, s, spawner).await,
+                        (None, _) => Actor::spawn(Some(id.into()), Probe, a).await,
+                        (Some(s), false) => Actor::spawn_linked(Some(id.into()), Probe, a, s).await,
+                        (Some(s), true) => <Probe as ractor::thread_local::ThreadLocalActor>::spawn_linked(Some(id.into()), a, s, spawner).await,
                     };
                     r.expect("spawn")
                 }
@@ -267,6 +270,11 @@ fn live_body(shape: Shape, at_root: bool, cause: Cause, race: Race, local_child:
                     }
                     Cause::Panic => {
                         let _ = d2.cast(do_msg(1, vec![Step::Panic("boom")]));
+                    }
+                    Cause::Abort(_) => {
+                        // keep the actor task busy so that its k-th poll comes
+                        let _ = d2.cast(do_msg(1, vec![Step::Yield, Step::Tick, Step::Yield, Step::Tick]));
+                        let _ = d2.cast(do_msg(2, vec![Step::Yield]));
                     }
                 }
             });
@@ -547,10 +555,20 @@ pub fn plan(tier: &str) -> Plan {
             }
         }
     }
+    // exits by task cancellation: the exiting node's task is dropped before its k-th poll
+    for (shape, at_root, race) in [(Shape::Chain, false, Race::SpawnUnderDying), (Shape::Bushy, true, Race::None), (Shape::Chain, false, Race::RelinkOut), (Shape::Fan, true, Race::LinkIn)] {
+        for k in 1..=(if thorough { 5 } else { 3 }) {
+            live.push((shape, at_root, Cause::Abort(k), race, false));
+        }
+    }
     for (shape, at_root, cause, race, local) in live {
+        let mut c = cfg.clone();
+        if let Cause::Abort(k) = cause {
+            c.cuts = vec![vsched::CutSpec { sel: vsched::Sel::Name(if at_root { "R".into() } else { "A".into() }), at_poll: k }];
+        }
         units.push(Unit::explore(Job::new(
-            format!("live/{shape:?}/{}/{cause:?}/{race:?}/{}", if at_root { "root" } else { "mid" }, if local { "local" } else { "send" }),
-            cfg.clone(),
+            format!("live/{shape:?}/{}/{cause:?}/{race:?}/{}", if at_root { "root" } else { "mid" }, if local { "local" } else { "send" }).replace(['(', ')'], ""),
+            c,
             Some(lb),
             live_body(shape, at_root, cause, race, local),
         )));
@@ -583,7 +601,7 @@ pub fn plan(tier: &str) -> Plan {
     Plan {
         property: "C05",
         units,
-        rule: "core: link / relink / unlink / second link / child exit racing the real exit path (ActorLifecycleGuard: Stopping, terminate, unlink, Stopped) on real cells with a decision point before every lock, atomic and signal-port operation, complete tree with sleep sets for the 2-task case, deviation-bounded otherwise; live: real supervision trees (chain, fan, bushy; Send and thread-local children), one node exits by stop/kill/Err/panic while a task spawns under it, links into it, relinks or unlinks a child, deviation-bounded DFS over task-level schedules with the structural invariants (child has at most one supervisor and is in exactly that child set; a stopped actor has neither) evaluated at EVERY scheduling step and the subtree-death clauses at quiescence; startup: an actor whose pre_start linked a child (whose pre_start linked a grandchild) exits before it ever ran (pre_start Err / panic, spawning future dropped before its k-th poll for every k, supervisor stopped or killed meanwhile; spawn, spawn_linked and the instant and thread-local variants), the whole subtree must end Stopped; non-trivial = execution with >= 1 branching decision".into(),
+        rule: "core: link / relink / unlink / second link / child exit racing the real exit path (ActorLifecycleGuard: Stopping, terminate, unlink, Stopped) on real cells with a decision point before every lock, atomic and signal-port operation, complete tree with sleep sets for the 2-task case, deviation-bounded otherwise; live: real supervision trees (chain, fan, bushy; Send and thread-local children), one node exits by stop/kill/Err/panic/task cancellation (task dropped before its k-th poll) while a task spawns under it, links into it, relinks or unlinks a child, deviation-bounded DFS over task-level schedules with the structural invariants (child has at most one supervisor and is in exactly that child set; a stopped actor has neither) evaluated at EVERY scheduling step and the subtree-death clauses at quiescence; startup: an actor whose pre_start linked a child (whose pre_start linked a grandchild) exits before it ever ran (pre_start Err / panic, spawning future dropped before its k-th poll for every k, supervisor stopped or killed meanwhile; spawn, spawn_linked and the instant and thread-local variants), the whole subtree must end Stopped; non-trivial = execution with >= 1 branching decision".into(),
         assumptions: vec![
             "sequential consistency; structural operations are observed at step boundaries only (two independent concurrent reads are not required to agree)".into(),
             "trees of up to 5 nodes, depth 3".into(),
